@@ -60,6 +60,8 @@ def targeted_items():
         item("code-nohl", "```python\nx = 1\n```\n", {"myst_highlight_code_blocks": False}),
         item("lang-de", "```{note}\nx\n```\n\n```{bogus}\n```\n", {"language_code": "de"}),
         item("lang-en", "```{note}\nx\n```\n\n```{bogus}\n```\n"),
+        item("lang-bogus", "text\n", {"language_code": "bogus"}),
+        item("lang-bogus-2", "other text\n", {"language_code": "bogus"}),
         item("table-toc", "```{contents}\n```\n\n# A\n\n## B\n\n| a | b |\n|---|--:|\n| 1 | 2 |\n"),
         item("sectnum", "```{sectnum}\n```\n\n# A\n\n## B\n"),
         item("targets", "(t1)=\n# A\n\n[](t1) [x](#t1) [y](missing)\n\n[ref]: https://x.org\n\n[z][ref]\n"),
@@ -137,7 +139,9 @@ def gen_project(rng, n_docs=None, amsmath=False):
         if rng.random() < 0.3:
             parts.append("{{ s }} and {{ g }}\n")
         if rng.random() < 0.2:
-            parts.append("```{role} r%d(emphasis)\n```\n\n{r%d}`x` {r%d}`y`\n" % (i, i, (i + 1) % n))
+            # (roles are used in the defining document only: a role used in ANOTHER document is the known docutils
+            #  role-registry finding, reproduced by the fixed project role_project())
+            parts.append("```{role} r%d(emphasis)\n```\n\n{r%d}`x` {r%d}`y`\n" % (i, i, i))
         if rng.random() < 0.2:
             parts.append(f"```{{code-block}} python\n:caption: cap {i}\n:name: code{i}\n\nx = {i}\n```\n\n{{numref}}`code{i}`\n")
         if rng.random() < 0.2:
@@ -146,3 +150,15 @@ def gen_project(rng, n_docs=None, amsmath=False):
     conf = ("myst_enable_extensions = ['colon_fence', 'deflist', 'substitution'%s]\nmyst_substitutions = {'g': 'global', 's': 'global s'}\n"
             "myst_heading_anchors = 2\nnumfig = True\n" % (", 'dollarmath', 'amsmath'" if True else ""))
     return {"files": files, "conf": conf}
+
+
+def role_project():
+    """Fixed witness of the docutils role-registry finding under Sphinx: a_def defines a role, z_use uses it; in a
+    serial build a_def is read first (the role is known in z_use), with 4 read workers they are read by different
+    processes (unknown role)."""
+    files = {"index.md": "# Index\n\n```{toctree}\na_def\n" + "\n".join(f"m{i}" for i in range(8)) + "\nz_use\n```\n",
+             "a_def.md": "# A\n\n```{role} sharedrole(emphasis)\n```\n\n{sharedrole}`x`\n",
+             "z_use.md": "# Z\n\n{sharedrole}`y`\n"}
+    for i in range(8):
+        files[f"m{i}.md"] = f"# M{i}\n\ntext\n"
+    return {"files": files, "conf": ""}
